@@ -354,9 +354,13 @@ class Parser:
 
         # Just a start number? Technically a Range
         if self._tokens.at_end() or isinstance(self._tokens.lookahead(0), CommaToken):
-            return IntRange(
-                start=int(start_sign + start.value), end=int(start_sign + start.value), step=1
-            )
+            try:
+                return IntRange(
+                    start=int(start_sign + start.value), end=int(start_sign + start.value), step=1
+                )
+            except (ValueError, OverflowError) as error:
+                # int() refuses text with more digits than sys.get_int_max_str_digits()
+                raise ExpressionError("Failed to create Range") from error
 
         token = self._tokens.next()
         if not isinstance(token, HyphenToken):
